@@ -819,5 +819,5 @@ def rule_transfer_bound_has_position(ctx):
                         else:
                             ctx.violated("POSNTERM", key, f.where(t.get("l")), "`%s` bounds the transfer by the element's length without the handle's position: a transfer that starts at posn > 0 "
                                          "may run past the end of the element" % r[:70])
-    ctx.floor("POSNTERM", 3, n, "(comparisons of a transfer length with the element length in Hread/Hwrite)")
+    ctx.floor("POSNTERM", 2, n, "(comparisons of a transfer length with the element length in Hread/Hwrite)")
     return n
